@@ -28,6 +28,16 @@
        point s, sources = transforms of the raw waveforms) against the formal transform `L` of Lcapy's signals, and
        the s-domain spec `Laws .ivp` evaluated on those transforms (`td.model`).
    Cases whose natural frequencies are not Gaussian rationals are skipped and counted.
+   Round 3: Props/C02Inj.lean is built and audited too (injectivity of the formal transform: L_injective, L_injective_w,
+   L_injective_real; lawsT_iff_formal, lawsTFormal_of_laws_s, response_unique, continuity — no injectivity hypothesis) and the
+   hand-over theorem `handover`.  New streams, each run starting with a fixed number of them: gyrator / voltage transformer /
+   ammeter (GY, TR, AM; the gyrator's input-branch current, which Lcapy does not expose, is defined from its relation and
+   checked by KCL), responses that contain an impulse (capacitor loop / inductor cut-set with a step, inconsistent initial
+   voltages), every source waveform kind once (incl. sin u(t), delayed damped sine, whole-axis sin / cos expressions), dc
+   circuits switched at t = 0 by a change-over (spdt) switch or containing coupled inductors, spdt switches operated at
+   T > 0, and TWO switches operated at different instants T1 < T2 (state at T1 and at T2 from `evalAt` of the law-checked
+   responses of the preceding intervals; `convert_IVP(T1)`, `(T2)`, `(T2+1)`: initial conditions and switch positions).
+   Tables laws-decided-by-family / -waveform / -component count the cases on which the driver DECIDED LawsTFormal.
 """
 import json
 import os
@@ -81,6 +91,8 @@ class TCanon(c10.Canon):
                     return self._fail(5, locals())
                 a_tot += ab[0]
                 b_tot += ab[1]
+            elif f == S.E:
+                b_tot += 1          # the constant e = exp(1), as SymPy prints exp(1)
             elif not f.has(t):
                 v = self.const_value(f)
                 if v is None:
@@ -975,7 +987,10 @@ def run(chk, replay=None):
         'switched circuits with T > 0 (harness-only parts): the value of the initial-condition expression Lcapy writes (exp of rationals) '
         'is computed by c09.Sampler with the same multiplicative stand-in for exp that the Lean driver uses in `evalAt`; the state itself is '
         'the Lean spec function evalAt applied to pre-switch signals that passed the Lean time-domain laws (uniqueness of that solution '
-        'is assumed, cf. response_unique_partial); Lcapy keeps step sources unshifted in the converted circuit, so only step sources are used',
+        'is proved: C02.response_unique); Lcapy keeps step sources unshifted in the converted circuit, so only step sources are used',
+        'two switches at different instants: the state at the second instant is evalAt of the law-checked response of the interval between '
+        'the instants, which the harness starts from the (stand-in valued) state at the first instant',
+        'the gyrator input-branch current is not exposed by Lcapy: it is defined from V(n1,n2) = -r i and then only KCL tests it',
         'the C01 netlist front-end (Model/Netlist.lean) that both the time-domain spec check and the s-domain model use',
         'the multiplicative stand-in for exp of rational constants (Driver/C09.lean mkE, c09.Sampler)']
     drv = chk.get_driver()
@@ -992,7 +1007,7 @@ def run(chk, replay=None):
     state.current_sign_convention = 'passive'
 
     ncases = 100 if quick else 900
-    budget = 135 if quick else 1050          # seconds for the generated cases
+    budget = 135 if quick else 980          # seconds for the generated cases
     chk.coverage['rule'] = ('each case = netlist x source waveforms x initial conditions: templates random-1-reactive / random-2-reactive '
                             '(gen_netlist with R,C,L,V,I,E,G,F,H,TF), series / parallel RLC with chosen poles (real, complex-conjugate over the '
                             'Gaussian rationals, repeated), repeated complex-conjugate natural frequencies (identical RLC sections through a buffer; RLC driven at '
@@ -1000,7 +1015,11 @@ def run(chk, replay=None):
                             '(K, both initial currents), ideal transformer, switched dc circuits through convert_IVP (series switch, '
                             'shorting switch, two capacitors paralleled, RLC ring-down; no / nc); 25% of the cases with some R, C, L values '
                             'symbolic; waveforms step, dc, ac, exp, t*exp, ramp, delayed step/exp, '
-                            'impulse, delayed impulse, damped sine, cos*u (rates sometimes equal to a natural frequency); 45% with initial '
+                            'impulse, delayed impulse, damped sine, cos*u, sin*u, delayed damped sine, whole-axis sin/cos expressions (rates sometimes equal to a natural frequency); '
+                            'round 3: GY / TR / AM (random kinds + directed gyrator-C, gyrator-RCC, TR+AM, AM in a series RLC), impulsive responses '
+                            '(capacitor across a step source, capacitive divider, two capacitors with different initial voltages, inductor cut-set, inductor in series '
+                            'with a current step), a sweep over every waveform kind, spdt switches and coupled inductors in switched dc circuits, spdt at T > 0, '
+                            'two switches at different instants; 45% with initial '
                             'conditions; non-trivial = Lcapy returned closed forms for every node voltage and branch current and all were '
                             'canonicalised (Gaussian-rational natural frequencies); distinct by netlist text')
     disagreements = []
@@ -1053,8 +1072,20 @@ def run(chk, replay=None):
                     # Kirchhoff's current law at the input-port nodes
                     w = [l for l in case['lines'] if l.split(' ')[0] == nm][0].split(' ')
                     rr = Fraction(w[5].strip('{}'))
-                    vv = lambda n: (cct[n].v.sympy if n != '0' else S.S.Zero)
-                    sigs['J %sX' % nm] = conv('I %sX' % nm, -(vv(w[1]) - vv(w[2])) / S.Rational(rr.numerator, rr.denominator))
+                    guard = [False]
+
+                    def vv(n):
+                        if n == '0':
+                            return S.S.Zero
+                        ev = cct[n].v.sympy
+                        if isinstance(ev, S.Piecewise) and len(ev.args) == 1 and ev.args[0][1] == (tsym >= 0):
+                            guard[0] = True        # result of an initial-value problem: valid for t >= 0 only
+                            return ev.args[0][0]
+                        return ev
+                    ex = -(vv(w[1]) - vv(w[2])) / S.Rational(rr.numerator, rr.denominator)
+                    if guard[0]:
+                        ex = S.Piecewise((ex, tsym >= 0))
+                    sigs['J %sX' % nm] = conv('I %sX' % nm, ex)
             else:
                 # reported quantities that are not unknowns of the laws: an error or a shape that is not understood
                 # only removes that quantity from the comparison (Lcapy has no current for G and F components)
